@@ -7,7 +7,7 @@ use open_hypergraphs::array::vec::{VecArray, VecKind};
 use open_hypergraphs::array::*;
 
 /// native label type
-#[derive(Clone, Copy, Debug, PartialEq, Eq, Hash)]
+#[derive(Clone, Copy, Debug, PartialEq, Eq, Hash, serde::Serialize, serde::Deserialize)]
 pub struct NLab(pub u64);
 /// native evaluation value: wrapping ring Z/2^vw
 #[derive(Clone, Copy, Debug, PartialEq, Eq, Default)]
